@@ -464,7 +464,7 @@ func substringFunc(arg1, arg2, arg3 query) func(query, iterator) interface{} {
 		}
 		// fix https://github.com/antchfx/xpath/issues/109
 		start = math.Round(start)
-		if start > float64(len(m)) {
+		if math.IsNaN(start) || start > float64(len(m)) {
 			return ""
 		}
 		if arg3 == nil {
@@ -478,23 +478,19 @@ func substringFunc(arg1, arg2, arg3 query) func(query, iterator) interface{} {
 			panic(errors.New("substring() function second argument type must be number"))
 		}
 		length = math.Round(length)
-		if length <= 0 {
+		// The result is the characters at the positions p (counted from 1)
+		// with start <= p < start+length, clipped to the string.
+		first, last := start, start+length
+		if first < 1 {
+			first = 1
+		}
+		if last > float64(len(m))+1 {
+			last = float64(len(m)) + 1
+		}
+		if !(first < last) {
 			return ""
 		}
-		if length > float64(len(m)) {
-			length = float64(len(m))
-		}
-		if start < 0 {
-			length = length - math.Abs(start)
-			if length <= 1 {
-				return ""
-			}
-			return m[:int(length-1)]
-		}
-		if start == 0 {
-			return m[:int(length-1)]
-		}
-		return m[int(start-1):int(length+start-1)]
+		return m[int(first)-1 : int(last)-1]
 	}
 }
 
